@@ -363,7 +363,8 @@ def run(prop, tier="quick", seed=0, replay=None, only=None):
     ev = build_evidence(prop, tier, seed, contracts, all_obs, by_name, proved, infos, nat, covers, interp,
                         violations, known_hits, undecided, time.time() - t0)
     # partial runs (--only) and self-test runs against a scratch copy must not overwrite the evidence of the check
-    ev_dir = "evidence" if not (only or os.environ.get("VERIF_REPO")) else os.path.join("scratch", "evidence")
+    ev_dir = "evidence" if not (only or os.environ.get("VERIF_REPO") or os.environ.get("VERIF_SELFTEST")) \
+        else os.path.join("scratch", "evidence")
     os.makedirs(os.path.join(VERIF, ev_dir), exist_ok=True)
     with open(os.path.join(VERIF, ev_dir, f"{prop}.json"), "w") as f:
         json.dump(ev, f, indent=1, default=str)
@@ -398,7 +399,7 @@ def run(prop, tier="quick", seed=0, replay=None, only=None):
 
 def write_replay(prop, obligation, contract, inputs, why, ob):
     safe = obligation.replace("/", "_")
-    rdir = "replays" if not os.environ.get("VERIF_REPO") else os.path.join("scratch", "replays")
+    rdir = "replays" if not (os.environ.get("VERIF_REPO") or os.environ.get("VERIF_SELFTEST")) else os.path.join("scratch", "replays")
     os.makedirs(os.path.join(VERIF, rdir), exist_ok=True)
     path = os.path.join(VERIF, rdir, f"{prop}-{safe}.json")
     d = {"property": prop, "obligation": obligation, "contract": contract, "inputs": inputs, "why": why,
